@@ -73,19 +73,19 @@ private theorem of_table (d : Nat) (f : UInt32 → UInt32)
   simpa using this
 
 theorem rtUn1023 (c : UInt32) (h : c < 1024) : qUn (F := SF) 1023 (uUn 1023 c) = c :=
-  of_table 10 _ rtUn1023_table c (by simpa using UInt32.lt_iff_toNat_lt.mp h)
+  of_table 10 (fun c => qUn (F := SF) 1023 (uUn 1023 c)) rtUn1023_table c (by simpa using UInt32.lt_iff_toNat_lt.mp h)
 theorem rtUn63 (c : UInt32) (h : c < 64) : qUn (F := SF) 63 (uUn 63 c) = c :=
-  of_table 6 _ rtUn63_table c (by simpa using UInt32.lt_iff_toNat_lt.mp h)
+  of_table 6 (fun c => qUn (F := SF) 63 (uUn 63 c)) rtUn63_table c (by simpa using UInt32.lt_iff_toNat_lt.mp h)
 theorem rtUn31 (c : UInt32) (h : c < 32) : qUn (F := SF) 31 (uUn 31 c) = c :=
-  of_table 5 _ rtUn31_table c (by simpa using UInt32.lt_iff_toNat_lt.mp h)
+  of_table 5 (fun c => qUn (F := SF) 31 (uUn 31 c)) rtUn31_table c (by simpa using UInt32.lt_iff_toNat_lt.mp h)
 theorem rtUn15 (c : UInt32) (h : c < 16) : qUn (F := SF) 15 (uUn 15 c) = c :=
-  of_table 4 _ rtUn15_table c (by simpa using UInt32.lt_iff_toNat_lt.mp h)
+  of_table 4 (fun c => qUn (F := SF) 15 (uUn 15 c)) rtUn15_table c (by simpa using UInt32.lt_iff_toNat_lt.mp h)
 theorem rtUn7 (c : UInt32) (h : c < 8) : qUn (F := SF) 7 (uUn 7 c) = c :=
-  of_table 3 _ rtUn7_table c (by simpa using UInt32.lt_iff_toNat_lt.mp h)
+  of_table 3 (fun c => qUn (F := SF) 7 (uUn 7 c)) rtUn7_table c (by simpa using UInt32.lt_iff_toNat_lt.mp h)
 theorem rtUn3 (c : UInt32) (h : c < 4) : qUn (F := SF) 3 (uUn 3 c) = c :=
-  of_table 2 _ rtUn3_table c (by simpa using UInt32.lt_iff_toNat_lt.mp h)
+  of_table 2 (fun c => qUn (F := SF) 3 (uUn 3 c)) rtUn3_table c (by simpa using UInt32.lt_iff_toNat_lt.mp h)
 theorem rtU1 (c : UInt32) (h : c < 2) : qUn (F := SF) 1 (uU1 c) = c :=
-  of_table 1 _ rtU1_table c (by simpa using UInt32.lt_iff_toNat_lt.mp h)
+  of_table 1 (fun c => qUn (F := SF) 1 (uU1 c)) rtU1_table c (by simpa using UInt32.lt_iff_toNat_lt.mp h)
 
 /-! ### signed bit-fields of `packSnorm3x10_1x2` (10-bit, N = 511; 2-bit, factor 1.f) -/
 /-- canonical re-pack of a signed code: the most negative code becomes `-N` -/
@@ -104,13 +104,17 @@ theorem rtSn511 (c : Int32) (h : -512 ≤ c ∧ c ≤ 511) : qSn (F := SF) 511 (
   have h2 : c.toInt ≤ 511 := by simpa using Int32.le_iff_toInt_le.mp h.2
   have := allPow_zero _ 10 rtSn511_table (c.toInt + 512).toNat (by omega)
   have e : (((c.toInt + 512).toNat : Nat) : Int) - 512 = c.toInt := by omega
-  simpa [e] using this
+  dsimp only at this
+  rw [e, Int32.ofInt_toInt] at this
+  exact beq_iff_eq.mp this
 theorem rtS1 (c : Int32) (h : -2 ≤ c ∧ c ≤ 1) : qSn (F := SF) 1 (uS1 c) = canonS (-2) c := by
   have h1 : -2 ≤ c.toInt := by simpa using Int32.le_iff_toInt_le.mp h.1
   have h2 : c.toInt ≤ 1 := by simpa using Int32.le_iff_toInt_le.mp h.2
   have := allPow_zero _ 2 rtS1_table (c.toInt + 2).toNat (by omega)
   have e : (((c.toInt + 2).toNat : Nat) : Int) - 2 = c.toInt := by omega
-  simpa [e] using this
+  dsimp only at this
+  rw [e, Int32.ofInt_toInt] at this
+  exact beq_iff_eq.mp this
 theorem uSn511_min : uSn (F := SF) 511 (-512) = uSn 511 (-511) ∧ uS1 (F := SF) (-2) = uS1 (-1) := by
   decide +kernel
 
